@@ -470,7 +470,8 @@ package engine
 // match was entered with, records every instance with its slot, and never prunes the walk.
 //@ func (m FileMatcher) Match$1(cursor) (res)
 //@   requires cursor != nil && d != nil && m.NodeMatcher != nil
-//@   invariant forall i int {matches[i]} :: 0 <= i && i < len(matches) ==> matches[i] != nil && allocated(matches[i]) && matches[i].data != nil
+//@   invariant forall i int {matches[i]} :: 0 <= i && i < len(matches) ==> matches[i] != nil && allocated(matches[i]) && matches[i].data != nil && slotTyped(matches[i].parent, matches[i].name, matches[i].index)
+//@   requires typing: curNode(cursor) != nil ==> slotTyped(curParent(cursor), curName(cursor), curIndex(cursor))
 //@   assigns matches, elems(matches)
 //@   ensures [C01,C03] never-prunes: curNode(cursor) != nil ==> res
 //@   ensures [C01] records-exactly-the-instances: curNode(cursor) != nil ==> len(matches) == old(len(matches)) + ite(MatchOK(m.NodeMatcher, rvOf(curNode(cursor)), dmap(d), nodeRegionOf(curNode(cursor))), 1, 0)
